@@ -335,6 +335,7 @@ def main(argv):
     ap.add_argument('--jobs', type=int, default=int(os.environ.get('VERIF_JOBS', NCPU)))
     ap.add_argument('--cfg', help='restrict to these configurations (comma separated; debugging aid)')
     ap.add_argument('--ops', help='only report violations of these ops (comma separated; debugging aid)')
+    ap.add_argument('--only-aux', action='store_true', help='skip the main workload, run only the auxiliary passes (debugging aid)')
     ap.add_argument('--scale', type=float, default=float(os.environ.get('VERIF_SCALE', '1')))
     a = ap.parse_args(argv)
     pid = a.prop.upper()
@@ -371,6 +372,8 @@ def main(argv):
     cfgs = prop.configs(tier) if not tasks else []
     if a.cfg:
         cfgs = [c for c in cfgs if c in a.cfg.split(',')]
+    if a.only_aux:
+        cfgs, tasks = [], []
     for ci, cname in enumerate(cfgs):
         cfg = core.Cfg(cname)
         n = max(1, int(prop.budget(cfg, tier) * a.scale))
@@ -487,13 +490,33 @@ def replay(prop, path):
     cfg = core.Cfg(toks[0])
     if hasattr(prop, 'replay'):
         return prop.replay(sys.modules[__name__], v)
+    full = full or (toks[0] not in core.cfg_names(False) and toks[0] not in getattr(prop, 'CAST_TYPES', []))
     try:
-        paths, _ = build([prop.BIN], mode, full=full or (toks[0] not in core.cfg_names(False)))
+        if mode in ('miri', 'miri-be', 'asan', 'nightly'):
+            import aux
+            argv, binpath, env = aux.prepare(sys.modules[__name__], mode, prop.BIN, full)
+            reqfile = os.path.join(BUILD, 'replay.req')
+            with open(reqfile, 'w') as f:
+                f.write(v['request'] + '\n')
+            p = subprocess.run(([binpath] if binpath else list(argv)) + ['--in', reqfile], env=env, capture_output=True, text=True, timeout=1800)
+            out = [l for l in p.stdout.split('\n') if l]
+            hi = next((i for i, l in enumerate(out) if l.startswith('#H')), None)
+            if 'Undefined Behavior' in p.stderr or 'AddressSanitizer' in p.stderr:
+                print(p.stderr[-3000:])
+                print('VIOLATION property=%s replay=%s' % (pid, path))
+                return 1
+            if hi is None or len(out) < hi + 2:
+                print('INCONCLUSIVE property=%s reason=no response under %s: %s' % (pid, mode, p.stderr[-500:]))
+                return 2
+            hdr = dict(kv.split('=') for kv in out[hi].split()[1:])
+            resp = out[hi + 1:]
+        else:
+            paths, _ = build([prop.BIN], mode, full=full)
+            hdr, resp = run_driver(paths[prop.BIN], v['request'] + '\n', 600)
     except BuildError as e:
         print(str(e))
         print('INCONCLUSIVE property=%s reason=driver build failed' % pid)
         return 2
-    hdr, resp = run_driver(paths[prop.BIN], v['request'] + '\n', 600)
     st = new_stats()
     args = prop.decode(cfg, toks[1], toks[2:])
     judge_line(prop, cfg, hdr['dbg'] == '1', toks[1], args, resp[0], st, v['request'], mode, hdr.get('endian', 'little'))
